@@ -2242,3 +2242,116 @@ Proof.
   unfold quiet, n_selected, n_transit, n_inop, n_handles, cq_ids, guard_ids, opbuf_ids, handle_ids.
   rewrite Hr, Hcq, Hops, Hpe, Hlo, Hha. reflexivity.
 Qed.
+
+(* ====================================================================== *)
+(* 10. the runtime-level stream forwards exhaustion to its consumer         *)
+
+Lemma stream_rearm n : forall c sched, c = false ->
+  stream_poll true c (rearm n ++ sched) = stream_poll true c sched.
+Proof.
+  induction n as [|n IH]; intros c sched Hc; [reflexivity|].
+  subst c. cbn [rearm app stream_poll]. apply IH. reflexivity.
+Qed.
+
+Lemma stream_forwards_error n r rest :
+  stream_poll true false (rearm n ++ AInner (MErr r) :: rest) = (SErr r, true).
+Proof. rewrite stream_rearm by reflexivity. reflexivity. Qed.
+
+Lemma stream_forwards_create_error n r rest :
+  stream_poll true false (rearm n ++ AInner MEnd :: ACreate (Some r) :: rest) = (SErr r, false) /\
+  stream_poll false false (ACreate (Some r) :: rest) = (SErr r, false).
+Proof. rewrite stream_rearm by reflexivity. split; reflexivity. Qed.
+
+(* next() stays pending only because the installed operation is pending *)
+Lemma stream_pending_only_inner sched : forall has c h,
+  stream_poll has c sched = (SPending, h) -> In (AInner MPending) sched.
+Proof.
+  induction sched as [|a rest IH]; intros has c h E; cbn [stream_poll] in E; [discriminate|].
+  destruct has.
+  - destruct a as [m|e]; [|discriminate]. destruct m as [|id em| |r|]; try discriminate.
+    + left; reflexivity.
+    + destruct em; discriminate.
+    + right. apply (IH _ _ _ E).
+  - destruct c; [discriminate|]. destruct a as [m|[r|]]; try discriminate. right. apply (IH _ _ _ E).
+Qed.
+
+(* SubmitMultiManaged turns an error result of the operation into an error item *)
+Lemma managed_final_error r obuf f : is_err r = true -> managed_poll (RawFinal r obuf) f = MErr r.
+Proof. intros H. cbn [managed_poll]. rewrite H. reflexivity. Qed.
+
+Lemma managed_more_error r id f : is_err r = true -> managed_poll (RawMore r (Some id)) f = MErr r.
+Proof. intros H. cbn [managed_poll]. rewrite H. reflexivity. Qed.
+
+(* io_uring: ring empty, the stream's operation in flight, nothing unreaped:
+   the kernel's only answer is -ENOBUFS, the driver stores ResourceBusy as the
+   result of the operation, SubmitMultiManaged turns it into an error item and
+   the stream loop hands it to the consumer (also after any number of earlier
+   re-submissions), keeping nothing pending *)
+Theorem stream_reports_exhaustion_uring u size ls s k o :
+  1 <= size -> (NN size <= 32768)%N -> reach u size ls s -> uring s = true -> released s = false ->
+  ring_ids s = [] -> cq s = [] ->
+  nth_error (ops s) k = Some o -> o_inflight o = true -> o_kdone o = false ->
+  exists s', steps s [LKernel k false false RNoBufs; LCqe] = Some (Ok s') /\
+    nbusy s' = S (nbusy s) /\
+    (exists o', nth_error (ops s') k = Some o' /\ o_res o' = Some RNoBufs /\
+       forall n rest f,
+         stream_poll true false (rearm n ++ AInner (managed_poll (RawFinal RNoBufs (hd_error (o_buf o'))) f) :: rest)
+         = (SErr RNoBufs, true)).
+Proof.
+  intros H1 H2 Hr Hu Hrel He Hc Hk Hi Hd.
+  destruct (exhaustion_uring_thm u size ls s H1 H2 Hr Hu Hrel) as (Hiff & _ & _ & _).
+  set (o1 := mk_op false true (o_buf o) (o_q o) (o_res o)).
+  set (s1 := set_cq (upd_op s k o1) (cq s ++ [mk_cqe k None false RNoBufs])).
+  assert (E1 : step s (LKernel k false false RNoBufs) = Some (Ok s1)).
+  { cbn [step]. rewrite Hk, Hd, Hu, Hi. cbn [negb andb orb rescls_eqb].
+    rewrite (proj2 Hiff He). cbn [negb andb]. reflexivity. }
+  assert (Hk1 : nth_error (ops s1) k = Some o1).
+  { unfold s1, upd_op, set_ops, set_cq. cbn [ops]. apply set_nth_eq. eapply nth_error_lt; eauto. }
+  destruct (exhaustion_result_thm s1 k o1 [] Hrel ltac:(unfold s1; cbn [cq set_cq]; rewrite Hc; reflexivity) Hk1)
+    as (s' & E2 & Hb & o' & Hk' & Hres).
+  exists s'. split; [cbn [steps]; rewrite E1, E2; reflexivity|]. split; [exact Hb|].
+  exists o'. split; [exact Hk'|]. split; [exact Hres|].
+  intros n rest f. rewrite managed_final_error by reflexivity. apply stream_forwards_error.
+Qed.
+
+(* fallback pool: the free queue is empty, so BufferPool::pop inside
+   factory.create() fails with ResourceBusy, and the stream loop returns that
+   error to the consumer instead of looping *)
+Theorem stream_reports_exhaustion_fallback s :
+  uring s = false -> released s = false -> queue s = [] ->
+  step s LPop = Some (Ok (set_nbusy s (S (nbusy s)))) /\
+  forall n rest,
+    stream_poll true false (rearm n ++ AInner MEnd :: ACreate (Some RNoBufs) :: rest) = (SErr RNoBufs, false) /\
+    stream_poll false false (ACreate (Some RNoBufs) :: rest) = (SErr RNoBufs, false).
+Proof.
+  intros Hu Hr Hq. split.
+  - apply (proj1 (exhaustion_fallback_thm s Hu Hr) Hq).
+  - intros n rest. apply stream_forwards_create_error.
+Qed.
+
+Lemma c07_stream_reports_exhaustion : forall (size : nat) (s0 : st) (ls : list label) (s : st) (k : nat) (o : opst),
+  1 <= size -> (NN size <= 32768)%N ->
+  pool_new true size = Ok s0 -> steps s0 ls = Some (Ok s) -> released s = false ->
+  ring_ids s = [] -> cq s = [] ->
+  nth_error (ops s) k = Some o -> o_inflight o = true -> o_kdone o = false ->
+  exists s', steps s [LKernel k false false RNoBufs; LCqe] = Some (Ok s') /\
+    nbusy s' = S (nbusy s) /\
+    (exists o', nth_error (ops s') k = Some o' /\ o_res o' = Some RNoBufs /\
+       forall n rest f,
+         stream_poll true false (rearm n ++ AInner (managed_poll (RawFinal RNoBufs (hd_error (o_buf o'))) f) :: rest)
+         = (SErr RNoBufs, true)).
+Proof.
+  intros size s0 ls s k o H1 H2 A B Hrel.
+  assert (Hu : uring s = true).
+  { destruct (pool_new_inv true size H1 H2) as (s0' & E0' & _ & _ & Hu0 & _).
+    rewrite A in E0'. injection E0' as <-. destruct (steps_nbuf _ _ _ B) as (_ & C). congruence. }
+  apply (stream_reports_exhaustion_uring true size ls s k o H1 H2 (reach_of _ _ _ _ _ A B) Hu Hrel).
+Qed.
+
+Lemma c07_stream_forwards : forall (n : nat) (r : rescls) (rest : list sans),
+  stream_poll true false (rearm n ++ AInner (MErr r) :: rest) = (SErr r, true) /\
+  stream_poll true false (rearm n ++ AInner MEnd :: ACreate (Some r) :: rest) = (SErr r, false) /\
+  stream_poll false false (ACreate (Some r) :: rest) = (SErr r, false).
+Proof.
+  intros n r rest. split; [apply stream_forwards_error|apply stream_forwards_create_error].
+Qed.
